@@ -7,25 +7,44 @@ From NiflyVerif Require Import Res GraphModel GraphInv GraphAdd GraphOrder
 From Coq Require Import Permutation.
 Local Open Scope N_scope.
 
-(* ---- the one shape of index assignment ---- *)
-(* [SInv n base st]: newIndices has n entries, the visited set has no duplicates and lies below n,
-   newIndex = base + |visited|, and the k-th visited block carries base + k. One assignment keeps it. *)
-Theorem C04_assign_inv : forall n base i st st',
-  base + n < 4294967296 -> SInv n base st -> assign i st = Ok st' -> SInv n base st'.
+(* ---- index assignment ---- *)
+(* [SInv n base S st]: newIndices has n entries; the visited set is, without duplicates, the numbered
+   blocks plus the pending list S (blocks SortCollision inserted into the visited set on entry and
+   has not numbered yet); newIndex = base + number of numbered blocks; the k-th numbered block carries
+   base + k. The fused assignment (SetSortIndices, completing loops) keeps it ... *)
+Theorem C04_assign_inv : forall n base S i st st',
+  base + n < 4294967296 -> SInv n base S st -> assign i st = Ok st' -> SInv n base S st'.
 Proof. exact assign_inv. Qed.
 Print Assumptions C04_assign_inv.
 
-(* Any property of the sort state that survives an assignment and a child-array rebuild survives
-   every traversal: every routine, every graph, every fuel, every root shape order. Nothing below
-   depends on which blocks the traversal visits or in which order. *)
-Theorem C04_traversal_generic : forall (P : sstate -> Prop) ob rso,
-  (forall i, preserves P (assign i)) -> (forall i st, P st -> P (rebuild_at ob rso i st)) ->
-  forall fuel c, preserves P (sort_run ob rso fuel c).
+(* ... SortCollision's entry (visitedIndices.insert(parent)) moves the parent into the pending list ... *)
+Theorem C04_mark_inv : forall n base S i st,
+  SInv n base S st -> visited st i = false -> SInv n base (i :: S) (s_mark i st).
+Proof. exact mark_inv. Qed.
+Print Assumptions C04_mark_inv.
+
+(* ... and its deferred numbering (if (assignIndex) newIndices[parent] = newIndex++) takes it out again *)
+Theorem C04_set_index_inv : forall n base S i st st',
+  base + n < 4294967296 -> SInv n base (i :: S) st -> s_set_index i st = Ok st' -> SInv n base S st'.
+Proof. exact set_index_inv. Qed.
+Print Assumptions C04_set_index_inv.
+
+(* Any property of the sort state, indexed by the pending list, that survives the fused assignment,
+   the two halves of SortCollision's assignment and a child-array rebuild survives every traversal:
+   every routine, every graph (cyclic collision graphs included), every fuel, every root shape order,
+   and every call returns with the pending list it was entered with. Nothing below depends on which
+   blocks the traversal visits or in which order. *)
+Theorem C04_traversal_generic : forall (P : list N -> sstate -> Prop) ob rso,
+  (forall S i, preserves (P S) (assign i)) ->
+  (forall S i st, P S st -> visited st i = false -> P (i :: S) (s_mark i st)) ->
+  (forall S i st st', P (i :: S) st -> s_set_index i st = Ok st' -> P S st') ->
+  (forall S i st, P S st -> P S (rebuild_at ob rso i st)) ->
+  forall fuel S c, preserves (P S) (sort_run ob rso fuel c).
 Proof. exact run_preserves. Qed.
 Print Assumptions C04_traversal_generic.
 
-Theorem C04_traversal_numbering : forall ob rso n base fuel c st st',
-  base + n < 4294967296 -> sort_run ob rso fuel c st = Ok st' -> SInv n base st -> SInv n base st'.
+Theorem C04_traversal_numbering : forall ob rso n base S fuel c st st',
+  base + n < 4294967296 -> sort_run ob rso fuel c st = Ok st' -> SInv n base S st -> SInv n base S st'.
 Proof. exact run_sinv. Qed.
 Print Assumptions C04_traversal_numbering.
 
@@ -232,3 +251,18 @@ Example C04_example_order :
   | _ => False
   end.
 Proof. vm_compute. split; reflexivity. Qed.
+
+(* a cyclic collision graph (node 0 -> collision object 1 -> body 2 -> shape 3 -> body 2, and body 2
+   listing itself): the sort terminates with a permutation, children before their parent *)
+Definition ex_cycle : list sblock :=
+  [ mkSB 0 2 0 2 [] NPOS [] 1 [] NPOS NPOS NPOS NPOS NPOS NPOS NPOS NPOS [] NPOS NPOS [] [] [] [] NPOS NPOS [NPOS; 1] [] [] [];
+    blank 1 0 [] [2];
+    blank 8192 0 [] [3; 2];
+    blank 8192 0 [] [2] ].
+
+Example C04_example_cycle :
+  match pretty_indices fuel100 false ex_cycle with
+  | Ok st => st_nidx st = [0; 3; 2; 1]
+  | _ => False
+  end.
+Proof. vm_compute. reflexivity. Qed.
